@@ -13,6 +13,14 @@ pub const PATTERNS: &[&str] = &[
 
 /// decimal string with <= 15 significant digits, biased to the interesting shapes
 fn gen_number(rng: &mut Rng) -> String {
+    if rng.chance(1, 12) {
+        // just below a tie far behind the point: d zeros, a 4, then 9s beyond the 15th decimal place (<= 15 significant digits)
+        let d = rng.range(1, 8) as usize;
+        let n9 = rng.range((14usize.saturating_sub(d)).max(1) as u32, 13) as usize;
+        let tail = *rng.pick(&['5', '6', '9', '1']);
+        let txt = format!("0.{}4{}{}", "0".repeat(d), "9".repeat(n9), tail);
+        return if rng.chance(1, 4) { format!("-{}", txt) } else { txt };
+    }
     let digits = match rng.below(5) {
         0 => rng.range(1, 3),
         1 => 15,
